@@ -1978,7 +1978,7 @@ Qed.
 
 (* the name [rev-parse] looks up: HEAD in any letter case is the current branch *)
 Definition rev_name (w : world) (a : bytes) : bytes :=
-  if bytes_eqb (map lower a) (str "head"%string) then w_head w else a.
+  if bytes_eqb a (str "HEAD"%string) then w_head w else a.
 
 Fixpoint rev_parse_out (w : world) (args : list bytes) : option (list bytes) :=
   match args with
@@ -2043,17 +2043,19 @@ Proof.
         rewrite (proj2 IH (ex_intro _ b (conj Hb Hn))). reflexivity.
 Qed.
 
-Lemma rev_name_head : forall w,
-  rev_name w (str "HEAD"%string) = w_head w /\
-  rev_name w (str "head"%string) = w_head w /\
-  rev_name w (str "Head"%string) = w_head w.
-Proof. intro w. repeat split; reflexivity. Qed.
+Lemma rev_name_head : forall w, rev_name w (str "HEAD"%string) = w_head w.
+Proof. intro w. reflexivity. Qed.
 
-(* any other name is looked up as it is *)
-Lemma rev_name_other : forall w a, map lower a <> str "head"%string -> rev_name w a = a.
+(* any other name is looked up as it is -- a branch called "head" or "Head" included (repair F57: the
+   comparison used to ignore case, so `rev-parse head` printed HEAD's commit, not that branch's) *)
+Lemma rev_name_other : forall w a, a <> str "HEAD"%string -> rev_name w a = a.
 Proof.
   intros w a H. unfold rev_name. apply bytes_eqb_neq in H. rewrite H. reflexivity.
 Qed.
+
+Lemma rev_name_lower_head : forall w,
+  rev_name w (str "head"%string) = str "head"%string /\ rev_name w (str "Head"%string) = str "Head"%string.
+Proof. intro w. split; reflexivity. Qed.
 
 (* ================================================================== *)
 (** * 8. The HEAD and branch file codecs *)
@@ -2226,10 +2228,11 @@ Section Examples.
   Let ex_id (w : world) (n : bytes) : bytes :=
     match am_get (w_refs w) n with Some id => hex id | None => [] end.
   Example ex_rev_parse :
-    snd (fst (step (cmd_ (CRevParse [str "HEAD"; str "aa"; str "Head"])) ex_w2))
+    snd (fst (step (cmd_ (CRevParse [str "HEAD"; str "aa"; str "HEAD"])) ex_w2))
     = OOk (map (ex_id ex_w2) [str "a+"; str "aa"; str "a+"])
-    /\ snd (fst (step (cmd_ (CRevParse [str "aa"; str "main"])) ex_w2)) = OErr.
-  Proof. vm_compute. split; reflexivity. Qed.
+    /\ snd (fst (step (cmd_ (CRevParse [str "aa"; str "main"])) ex_w2)) = OErr
+    /\ snd (fst (step (cmd_ (CRevParse [str "Head"])) ex_w2)) = OErr.   (* no branch of that name: HEAD is spelled HEAD *)
+  Proof. vm_compute. repeat split; reflexivity. Qed.
 
   (* a branch name containing ": " survives the HEAD file *)
   Example ex_head_colon : parse_head (render_head (str "a: b")) = Some (str "a: b").
